@@ -106,6 +106,12 @@ def c07Global (args : Json) : Except String Json := do
   let lists ← (← getArr args "lists").mapM (fun l => do (← l.getArr?).toList.mapM pairOf)
   let sq ← getBool args "sq"
   let vt := if (getStr args "variant").toOption == some "repaired" then LK.Pred.Variant.repaired else LK.Pred.Variant.asIs
+  let disp (k : String) : LK.Pred.Disp := if (getStr args k).toOption == some "error" then .error else .ignore
+  for l in lists do
+    match LK.Pred.align (disp "ms") (disp "mt") l with
+    | .error .missingScores => return Json.mkObj [("error", Json.str "missing scores")]
+    | .error .missingTruth => return Json.mkObj [("error", Json.str "missing truth")]
+    | .ok _ => pure ()
   let data := lists.map (LK.Pred.listData vt sq)
   pure (Json.mkObj [
     ("per_list", Json.arr (data.map (fun d => optRatToJson (LK.Pred.extract d))).toArray),
